@@ -31,7 +31,7 @@ ASSUMPTIONS = [
     "window 0 / negative / non-integer windows are outside the quantifier (1 <= w) and not driven",
 ]
 REQUIRED = {"all": ["salted_objects", "w_eq_1", "w_eq_N", "w_gt_N_rejected", "even_windows", "odd_windows", "delta_link_checked",
-                    "user_groups", "default_groups", "invalid_group_rejected", "histidine_windows", "default_window_calls", "numpy_int_windows", "windows_ge_128_sequences", "empty_user_groups", "repeated_user_groups", "more_than_1000_windows", "user_groups_larger_than_half_the_alphabet", "profile_calls_in_shuffled_order", "more_than_10_user_groups"]}
+                    "user_groups", "default_groups", "invalid_group_rejected", "histidine_windows", "default_window_calls", "numpy_int_windows", "windows_ge_128_sequences", "empty_user_groups", "repeated_user_groups", "more_than_1000_windows", "user_groups_larger_than_half_the_alphabet", "profile_calls_in_shuffled_order", "more_than_10_user_groups", "default_window_on_shorter_sequence_rejected", "explicit_empty_group_list_calls"]}
 LP = {"quick": 7, "thorough": 8}
 NRANDOM = {"quick": 500, "thorough": 3000}
 DEFAULT_GROUPS = ["ED", "RK", "RKED", "QNSTGHC", "ALMIV", "FYW", "P"]
@@ -182,6 +182,31 @@ def judge(case, rep, S):
                 else:
                     rep.viol("long_window_answered:get_linear_sequence_composition", "get_linear_sequence_composition(%d) on %s (N=%d) answered instead of rejecting" % (w, seq, N),
                              sig={"fn": "composition", "excess": w - N})
+    if N < 5:
+        # the documented default window is 5: on a shorter sequence an omitted window is an over-long window like any other
+        for name, fn, _ in fns + [("get_linear_sequence_composition", obj.get_linear_sequence_composition, None)]:
+            for how in ("omitted", "explicit"):
+                try:
+                    r = fn() if how == "omitted" else fn(5)
+                except Exception:
+                    rep.cnt("default_window_on_shorter_sequence_rejected")
+                else:
+                    rep.viol("long_window_answered:" + name, "%s(%s) on %s (N=%d) answered %r instead of rejecting the default window of 5" % (
+                        name, "" if how == "omitted" else "5", seq, N, S["np"].asarray(r).tolist()), sig={"fn": name, "excess": 5 - N})
+    if N >= 1 and rng.random() < 0.3:
+        # an explicitly empty list of groups is the documented default: the seven standard groups
+        w_ = rng.randint(1, N)
+        try:
+            a_ = S["np"].asarray(obj.get_linear_sequence_composition(w_, [])[1], dtype=float)
+            b_ = S["np"].asarray(obj.get_linear_sequence_composition(w_)[1], dtype=float)
+            same_ = a_.shape == b_.shape and bool((a_ == b_).all())
+        except Exception as e:
+            same_ = False
+            a_ = b_ = "%s: %s" % (type(e).__name__, e)
+        rep.cnt("explicit_empty_group_list_calls")
+        if not same_:
+            rep.viol("value:composition", "get_linear_sequence_composition(%d, []) on %s gives %r, the default groups give %r" % (w_, seq, a_, b_),
+                     sig={"fn": "composition", "explicit_empty_list": True})
     # delta link (needs both sigma profiles, i.e. N >= 6; for N == 5 the 6-blob contributes 0)
     if N >= 5 and 5 in sigma_profiles:
         fcr = obj.get_FCR()
@@ -269,6 +294,8 @@ def check_composition(rep, S, obj, seq, w, rng):
                 continue
             groups.append("".join(g))
             v = [c.lower() if rng.random() < 0.3 else c for c in g]
+            if g and rng.random() < 0.15:
+                v = v + [rng.choice(g).lower(), rng.choice(g).upper()]       # a member named again, in the other case too
             arg.append(v if rng.random() < 0.6 else (tuple(v) if rng.random() < 0.5 else "".join(v)))
         rep.cnt("user_groups")
         try:
